@@ -95,6 +95,16 @@ CoreReturn ==
   /\ phase' = "idle"
   /\ UNCHANGED <<tasks, ready, run, joinreg, rq, sq, modelLog, table>>
 
+\* AppTester (crux_core/src/testing.rs): `update` / `resolve` = one run_all of the same executor, then BOTH
+\* channels are drained and handed to the test: the events are returned, not applied (the test decides
+\* whether, when and in which order to feed them back through `update`)
+TesterReturn ==
+  /\ phase = "run" /\ Quiescent
+  /\ cmds' = [cmds EXCEPT ![CORE].out = {}, ![CORE].pass = "spawn"]
+  /\ reqs' = MarkHeld(reqs, cmds[CORE].out)
+  /\ phase' = "idle"
+  /\ UNCHANGED <<tasks, ready, run, joinreg, rq, sq, modelLog, table>>
+
 \* Core::resolve: a rejected resolution returns the error and runs nothing
 CoreResolve(r, v) ==
   /\ phase = "idle"
